@@ -426,6 +426,13 @@ impl<K> CasInner<K> {
         self.index.read_state().stats()
     }
 
+    /// `true` while some thread holds the index state lock exclusively.
+    #[cfg(feature = "verif-hooks")]
+    #[must_use]
+    pub fn verif_state_write_locked(&self) -> bool {
+        self.index.state.is_locked_exclusive()
+    }
+
     pub(crate) fn fdatasync(&self, file: File) -> Result<(), LibError> {
         match &self.datasync_channel {
             Some(sender) => {
